@@ -168,7 +168,15 @@ fn run_op(ctx: &mut Context, root: &str, op: &str) -> String {
         },
         "wb" => {
             let data = unhex(&f[2][1..]).unwrap();
-            handles(ctx).insert("handle:c18data".to_string(), StateValue::ByteArray(data));
+            // the data handle is (re)created only when the bytes differ from what it holds: a
+            // failed write followed by a write of the SAME bytes re-uses the handle as it was left
+            // (what the handle held last is remembered HERE, not read back from the state: if the
+            // implementation lost the handle, the re-use must fail visibly)
+            let same = ctx.variables.get("c18lastdata").map_or(false, |h| *h == f[2]);
+            if !same {
+                handles(ctx).insert("handle:c18data".to_string(), StateValue::ByteArray(data));
+                ctx.variables.insert("c18lastdata".to_string(), f[2].to_string());
+            }
             truth(call(ctx, "writebinfile", &[], &[&path(1), "handle:c18data"]))
         }
         "rb" => match call(ctx, "readbinfile", &[], &[&path(1)]) {
@@ -183,6 +191,13 @@ fn run_op(ctx: &mut Context, root: &str, op: &str) -> String {
         "mkdir" => truth(call(ctx, "mkdir", &[], &[&path(1)])),
         "cp" => truth(call(ctx, "cp", &[], &[&path(1), &path(2)])),
         "mv" => truth(call(ctx, "mv", &[], &[&path(1), &path(2)])),
+        "rmm" => {
+            // rm [-r] p1 p2 …: several paths in one command
+            let ps: Vec<String> = (2..f.len()).map(|i| path(i)).collect();
+            let refs: Vec<&str> = ps.iter().map(|s| s.as_str()).collect();
+            let flags: &[&str] = if f[1] == "1" { &["-r"] } else { &[] };
+            truth(call(ctx, "rm", flags, &refs))
+        }
         "rm" => truth(call(ctx, "rm", &[], &[&path(1)])),
         "rmr" => truth(call(ctx, "rm", &["-r"], &[&path(1)])),
         "rmdir" => truth(call(ctx, "rmdir", &[], &[&path(1)])),
@@ -318,7 +333,7 @@ fn gen_text(rng: &mut Rng) -> String {
         0 => String::new(),
         1 | 2 => crate::pools::value(rng),
         3 => crate::pools::text(rng, 24),
-        4 => "line1\nline2\r\n\ttab \u{0}nul é漢😀".to_string(),
+        4 => if rng.chance(1, 2) { "line1\nline2\r\n\ttab \u{0}nul é漢😀".to_string() } else { "\u{feff}héllo wörld\u{feff}".to_string() },
         _ => crate::pools::word(rng, 6),
     }
 }
@@ -399,7 +414,9 @@ fn gen_op(rng: &mut Rng, probe: bool, r: &mut Recent) -> String {
         24..=29 => format!("rt:{}", p),
         30..=33 => {
             note_file(r, &raw);
-            format!("wb:{}:{}", p, enc_x(&gen_bytes(rng)))
+            // one time in three the same bytes as the previous binary write (the data handle is re-used)
+            let b = if rng.chance(1, 3) { vec![1u8, 2, 3, 0xff, 0, 0x0a] } else { gen_bytes(rng) };
+            format!("wb:{}:{}", p, enc_x(&b))
         }
         34..=37 => format!("rb:{}", p),
         38..=42 => {
@@ -425,7 +442,14 @@ fn gen_op(rng: &mut Rng, probe: bool, r: &mut Recent) -> String {
             note_file(r, &format!("{}/{}", d.trim_end_matches('/'), base));
             format!("mv:{}:{}", p, enc_str(&d))
         }
-        70..=74 => format!("rm:{}", p),
+        70..=74 => {
+            if rng.chance(1, 3) {
+                // several paths in one command (existing and missing ones mixed)
+                let more: Vec<String> = (0..1 + rng.below(3)).map(|_| enc_str(&pick_path(rng, r, Want::Any, true))).collect();
+                return format!("rmm:{}:{}:{}", if rng.chance(1, 2) { "1" } else { "0" }, p, more.join(":"));
+            }
+            format!("rm:{}", p)
+        }
         75..=78 => format!("rmr:{}", p),
         79..=82 => format!("rmdir:{}", p),
         83..=85 => format!("ex:{}", p),
